@@ -207,7 +207,7 @@ def build_props(files: list[str], timeout=900):
             vo = COQ / "props" / f"{f}.vo"
             if vo.exists():
                 vo.unlink()
-        targets = [f"props/{f}.vo" for f in files]
+        targets = [f"props/{f}.vo" for f in files] + [f"model/{f}.vo" for f in files if (COQ / "model" / f"{f}.v").exists()]
         rc, out = sh(["make", "-j8"] + targets, timeout, cwd=COQ)
     for f in files:
         src = (COQ / "props" / f"{f}.v").read_text()
